@@ -491,6 +491,41 @@ func c10Loop(w *simnet.World, m *simnet.Mesh, ids []string, pr c10Probe, k simne
 		close(done)
 		_ = pc.Close()
 	}
+	// A packet whose claimed source is the phantom itself: when its budget runs out inside the loop, the expiry
+	// notice is addressed to the phantom and enters the same loop.  A notice is never answered with another notice,
+	// and its own budget (the node default) bounds its travel like any other packet's.
+	for _, h := range []int{0, 2, 5} {
+		mark := w.WireLen()
+		_ = peers[0].SendRaw(simnet.DataPacket(byte(h), phantom, phantom, "src", "x", []byte("spoofed source")))
+		time.Sleep(4 * time.Second)
+		simnet.Quiesce()
+		fw, notices := 0, 0
+		for _, r := range w.Wire()[mark:] {
+			if r.Type != simnet.MsgData || r.From == peers[0].Name {
+				continue
+			}
+			if r.DataTo == "unreach" {
+				notices++
+			} else {
+				fw++
+			}
+		}
+		if fw > h {
+			res.Violate("c10:loop-forwards", "spoofed-source packet with budget %d was forwarded %d times inside the loop", h, fw)
+		}
+		if notices > k.MaxHops {
+			res.Violate("c10:notice-loop-forwards", "the expiry notice for a budget-%d packet was forwarded %d times inside the loop (node default budget %d)", h, notices, k.MaxHops)
+		}
+		tail := w.WireLen()
+		time.Sleep(2 * time.Second)
+		for _, r := range w.Wire()[tail:] {
+			if r.Type == simnet.MsgData {
+				res.Violate("c10:loop-traffic-continues", "data traffic still flowing 4 s after a spoofed-source packet (budget %d) entered the loop: its expiry notice keeps circulating", h)
+				break
+			}
+		}
+		res.Add("probe_notice_in_loop", 1)
+	}
 	for _, sp := range peers {
 		sp.Stop()
 	}
